@@ -502,6 +502,64 @@ def r9(rep):
     rep.floor("stores into the section table of lib.c", n, 8)
 
 
+R11_BLIND = {"fileIsReadable", "fileIsThere", "fileIsOpenable", "osFileIsThere", "osIsReadable", "fnameType",
+             "fnameParseStaticWithin", "fnameTSetType", "car", "cdr"}
+R11_CONTENT = {"fileSize", "osFileSize", "fileRdOpen", "fileTryOpen", "fopen", "fread", "fgetc", "getc", "fgets", "stat", "fstat",
+               "fileHash", "osFileHash", "fileContentsString", "fileGetContents", "libIsLibrary", "arIsArchive", "fileModTime"}
+
+
+def r11(rep):
+    """A damaged library is refused by the reader that opens it -- which means the reader has to be shown it.  The search along the
+    library path (fileRdFind) picks the first candidate that can be opened; what the file holds is the reader's business.  A
+    search that looks at the candidate's size or content and moves on when it does not like it hides the damaged file from every
+    validation: an output cut at byte 0 (what an interrupted compile leaves, outputs are written in place) is skipped, a stale
+    file of the same name further along the path is used, and the compile ends with status 0 and different output.  In path.c
+    the tests under which fileRdFind returns or passes over a candidate call, directly or through helpers of path.c, only
+    predicates that do not look at size or content."""
+    f = common.extract("path.c", all_trees=True)
+    fn = f.funcs.get("fileRdFind")
+    if fn is None or "body" not in fn:
+        raise AnalysisBroken("path.c: fileRdFind not found")
+
+    def closure(node, seen):
+        out = set()
+        for c in calls(node):
+            cal = c.get("callee")
+            if cal is None:
+                raise AnalysisBroken("path.c: fileRdFind decides through an indirect call at line %d" % c["l"])
+            g = f.funcs.get(cal)
+            if g is not None and "body" in g and g.get("file", "").endswith("path.c") and cal not in seen:
+                out |= closure(g["body"], seen | {cal})
+            else:
+                out.add(cal)
+        return out
+
+    n = 0
+    for st in walk(fn["body"]):
+        if st["k"] != "IfStmt":
+            continue
+        then = st["c"][1]
+        if not any(y["k"] == "ReturnStmt" for y in walk(then)):
+            continue
+        n += 1
+        used = closure(st["c"][0], {"fileRdFind"})
+        key = "path-search-content-blind:fileRdFind@%d" % n
+        bad = sorted(used & R11_CONTENT)
+        unk = sorted(used - R11_CONTENT - R11_BLIND)
+        if bad:
+            rep.violation("R11", "path-search-content-blind:fileRdFind", "path.c:%d (fileRdFind)" % st["l"],
+                          "whether this candidate is the file found depends on %s: a candidate the test does not like is passed "
+                          "over without any reader having seen it, so a library cut to nothing by an interrupted compile is not "
+                          "refused -- the search goes on to a stale file of the same name further along the path and the compile "
+                          "succeeds with different output" % ", ".join(bad))
+        elif unk:
+            raise AnalysisBroken("path.c:%d (fileRdFind): the candidate test calls %s, which is in neither list of R11"
+                                 % (st["l"], ", ".join(unk)))
+        else:
+            rep.ok("R11", key, sample={"predicates": sorted(used)})
+    rep.floor("candidate tests of the path search", n, 2)
+
+
 def r10(rep):
     """The header of an archive member is text: name, date, ids, mode and *size* as decimal (or octal) numbers.  They are
     converted with strtol and kept as unsigned offsets; the size decides where the next header is looked for.  `-60` is a
@@ -635,6 +693,7 @@ def run(tier, only=None):
                            "terminal descriptions and the C++ type list are not library inputs")
     r9(rep)
     r10(rep)
+    r11(rep)
     from . import nullsearch
     nullsearch.report(rep, "R8", ("lib.c", "archive.c", "foam.c", "buffer.c", "sexpr.c", "file.c", "emit.c", "fint.c"), floor=3)
     return rep
